@@ -11,7 +11,7 @@ demo_dst=$(head -3 "$OUT/demo_$LOW.rs" | grep -oE "(stun-agent|stun-rs|stun-vect
 echo "demo goes to $demo_dst"
 suite=$(cargo test --workspace --offline 2>&1 | grep -E "^test result" | awk '{p+=$4; f+=$6} END {print p" passed "f" failed"}')
 echo "suite with change: $suite"
-cp "$OUT/demo_$LOW.rs" "$demo_dst"
+mkdir -p "$(dirname "$demo_dst")"; cp "$OUT/demo_$LOW.rs" "$demo_dst"
 pkg=$(echo "$demo_dst" | cut -d/ -f1); tname=$(basename "$demo_dst" .rs)
 with=$(cargo test -p "$pkg" --offline --test "$tname" 2>&1 | grep -E "^test result" | tail -1)
 echo "demo with change: $with"
